@@ -223,6 +223,19 @@ def exitTime (N x : Nat) : Rat := (x : Rat) * ((N : Rat) - (x : Rat))
 /-- E[ steps · 1{site N is reached before site 0} ] for the walk started on `x` -/
 def hitTime (N x : Nat) : Rat := (x : Rat) * ((N : Rat) * (N : Rat) - (x : Rat) * (x : Rat)) / (3 * (N : Rat))
 
+/-- Law of the walk itself (finite horizon, like `Lattice.reachBy`): E[min(τ, t)], the expected number of steps,
+    capped at `t`, until the symmetric walk started on site `x` leaves (0, N). -/
+def stepsBy (N : Nat) : Nat → Nat → Rat
+  | 0, _ => 0
+  | t + 1, x => if x = 0 then 0 else if N ≤ x then 0 else 1 + (stepsBy N t (x - 1) + stepsBy N t (x + 1)) / 2
+
+/-- Law of the walk itself: E[τ · 1{site N before site 0, τ ≤ t}] for the walk started on `x` (one step from an
+    inside site spends one step on every continuation that still ends on N within the horizon: `reachBy N (t+1) x`). -/
+def hitStepsBy (N : Nat) : Nat → Nat → Rat
+  | 0, _ => 0
+  | t + 1, x => if x = 0 then 0 else if N ≤ x then 0
+      else (hitStepsBy N t (x - 1) + hitStepsBy N t (x + 1)) / 2 + Lattice.reachBy N (t + 1) x
+
 /-- first-step equations of the exit time: 0 on both ends, 1 + mean of the neighbours inside -/
 def ExitTimeEq (N : Nat) (t : Nat → Rat) : Prop :=
   t 0 = 0 ∧ t N = 0 ∧ ∀ x, 0 < x → x < N → t x = 1 + (t (x - 1) + t (x + 1)) / 2
